@@ -223,7 +223,7 @@ theorem stamped_of_holdsLocal {p : SPc} (h : p.holdsLocal = true) : p.stamped = 
   cases p <;> simp_all
 
 set_option maxHeartbeats 4000000 in
-theorem invL2_step {c σ a σ'} (h : step c σ a = some σ') (hy : OrderOK σ a) (B : InvBound σ) (T : InvStamp σ) (U : InvUnreg σ)
+theorem invL2_step {c σ a σ'} (h : step c σ a = some σ') (hc2 : c.secondDelete = false) (hy : OrderOK σ a) (B : InvBound σ) (T : InvStamp σ)
     (I : InvL2 σ) : InvL2 σ' := by
   cases a with
   | «open» sh srv =>
@@ -317,23 +317,19 @@ theorem invL2_step {c σ a σ'} (h : step c σ a = some σ') (hy : OrderOK σ a)
       exact hI
   | sUnregAgain k =>
     step_inv h
-    rename_i hk
-    intro i h1 hn
-    simp [aget_adel] at h1 hn ⊢
-    by_cases e : k = i
-    · subst e; simp at h1
-    · simp [e] at h1 hn ⊢
-      have hI : aget σ.localShards (σ.inc i).shard = some (i, (σ.inc i).stamp) := by
-        apply I i h1
-        intro j hij hj hs
-        have := hn j hij hj
-        by_cases e2 : k = j
-        · subst e2; simp at this; exact absurd hs (by intro hs'; simp [hs'] at this)
-        · simp [e2] at this; exact this hs
-      refine ⟨?_, hI⟩
-      intro hs
-      have := U k hk
-      rw [hs, hI] at this; cases this
+    · rename_i hsd; rw [hc2] at hsd; cases hsd
+    · -- since its fix the rest of `UnregisterShard` leaves the table alone
+      intro i h1 hn
+      simp at h1 hn ⊢
+      by_cases e : k = i
+      · subst e; simp at h1
+      simp [e] at h1 hn ⊢
+      apply I i h1
+      intro j hij hj hs
+      have := hn j hij hj
+      by_cases e2 : k = j
+      · subst e2; simp at this; exact absurd hs (by intro hs'; simp [hs'] at this)
+      · simp [e2] at this; exact this hs
   | _ =>
     step_inv h
     all_goals (intro i h1 hn)
